@@ -1,7 +1,7 @@
 #!/bin/bash
 # multi-seed soak of all six quick checks (run before committing a new oracle clause or generator feature; scratch output under /tmp)
 cd /verif
-for s in 9 10 11 12 13 14 15 16 1 2 3; do for p in C19 C18 C09 C08 C04 C03; do
+for s in ${@:-9 10 11 12 13 14 15 16 1 2 3}; do for p in C19 C18 C09 C08 C04 C03; do
   out=$(VERIF_SEED=$s VERIF_JOBS=16 timeout 1500 /venv/bin/python -m dsim check $p --tier quick --no-evidence 2>&1); rc=$?
   echo "seed $s $p exit $rc; $(echo "$out" | grep -c '^KNOWN') known; $(echo "$out" | tail -2 | head -1 | cut -c1-100)"
   [ $rc -ne 0 ] && { echo "$out" | grep "^VIOLATION\|^  fingerprint\|HARNESS" | cut -c1-700; mkdir -p /tmp/seedreplays; cp /verif/replays/*.json /tmp/seedreplays/ 2>/dev/null; }
